@@ -95,7 +95,7 @@ Definition is_zero (m : Z) : bool := Z.eqb m 0.
 Definition neg_of (m : Z) : bool := Z.ltb m 0.
 
 (* exponents above this bound are not modelled (exact powers get too large) *)
-Definition POW_BOUND : Z := 512.
+Definition POW_BOUND : Z := 64.
 
 Section OPS.
 Variable p : positive.        (* precision of the destination *)
@@ -219,6 +219,7 @@ Fixpoint orc_find (l : list ((N * N * list mpv) * mpv)) (k c : N) (args : list m
   end.
 
 Definition mp_un (f : mfun) (x : mpv) : option mpv :=
+  if negb (match x with VFin _ e => Z.leb (Z.abs e) 1200 | _ => true end) then None else
   match f with
   | MU UAbs => mp_abs x
   | _ => orc_find orc 1 (mfun_code f) [x]
@@ -229,7 +230,14 @@ Definition cmp_ne (c : comparison) : bool := match c with Eq => false | _ => tru
 Definition cmp_le (c : comparison) : bool := match c with Gt => false | _ => true end.
 Definition cmp_lt (c : comparison) : bool := match c with Lt => true | _ => false end.
 
+(* values whose exponent is far outside the binary64 range are not modelled (MPFR's exponent range is 2^62:
+   the exact rationals the model computes with would have that many bits) *)
+Definition EXP_BOUND : Z := 1200.
+Definition small (v : mpv) : bool :=
+  match v with VFin _ e => Z.leb (Z.abs e) EXP_BOUND | _ => true end.
+
 Definition mp_bin (f : mbin) (x y : mpv) : option mpv :=
+  if negb (small x && small y) then None else
   match f with
   | MB BAdd => mp_add x y
   | MB BMul => mp_mul x y
